@@ -120,6 +120,40 @@ def _doubling_levels(fn: ast.AST, start: dict) -> tuple[int, list]:
     return n_ret, uniq
 
 
+def _plural_choice_ok(fn: ast.AST, both: set, neither: set) -> bool:
+    """Path conditions of every catalogue lookup in ``fn``: the plural lookups (ngettext /
+    npgettext) run only where every condition of ``both`` held when the branch was entered, the
+    singular ones (gettext / pgettext) only where that is ruled out — whichever way round the
+    branches are written."""
+    from ..guards import canon as _c
+    from ..guards import conditions as _conds
+    from ..guards import conjuncts as _cj
+    from ..guards import entry_conditions as _entry
+
+    entry = _entry(fn)
+    n_pl = n_sg = 0
+    ok = True
+    for st, cs in _conds(fn):
+        if isinstance(st, (ast.If, ast.For, ast.While, ast.With, ast.Try)):
+            continue
+        cs = list(cs) + list(entry.get(id(st), []))
+        have = {_c(c) for c in cs}
+        for c in ast.walk(st):
+            if isinstance(c, ast.Call) and isinstance(c.func, ast.Attribute) and isinstance(c.func.value, ast.Name) and c.func.value.id != "self":
+                if callee_name(c) in ("ngettext", "npgettext"):
+                    n_pl += 1
+                    ok = ok and both <= have
+                elif callee_name(c) in ("gettext", "pgettext"):
+                    n_sg += 1
+                    ruled_out = bool(have & neither) or any(
+                        (isinstance(x, ast.BoolOp) and isinstance(x.op, ast.Or) and {_c(v) for v in x.values} == neither)
+                        or (isinstance(x, ast.UnaryOp) and isinstance(x.op, ast.Not) and {_c(v) for v in _cj(x.operand)} == both)
+                        for x in cs
+                    )
+                    ok = ok and ruled_out
+    return ok and n_pl >= 1 and n_sg >= 1
+
+
 def _mod_sites(fn):
     return [n for n in ast.walk(fn) if isinstance(n, ast.BinOp) and isinstance(n.op, ast.Mod)]
 
@@ -284,9 +318,8 @@ def run(repo: Repo) -> Result:
 
     # ---- C26-COUNT ---------------------------------------------------------------------
     res.ob("count:tag", 2)
-    plural_if = next((n for n in walk_no_nested(gt.node) if isinstance(n, ast.If) and "self.plural_block" in text(n.test)), None)
-    if plural_if is None or text(plural_if.test) != "self.plural_block and count is not None":
-        res.add("C26-COUNT", gt.qual, f"plural-test:{text(plural_if.test) if plural_if else None}", "the tag must choose ngettext when there is a plural block and `count is not None` — testing the count for truthiness sends count=0 to the singular", gt.file, gt.line)
+    if not _plural_choice_ok(gt.node, {"self.plural_block", "count is not None"}, {"not self.plural_block", "count is None"}):
+        res.add("C26-COUNT", gt.qual, "plural-test", "the tag must choose ngettext exactly when there is a plural block and `count is not None` — testing the count for truthiness sends count=0 to the singular", gt.file, gt.line)
     cf = repo.func(f"{F}._count")
     res.ob(cf.qual, 2)
     first = [s for s in cf.node.body if not (isinstance(s, ast.Expr) and isinstance(s.value, ast.Constant))][0]
@@ -386,7 +419,10 @@ def run(repo: Repo) -> Result:
     if "self.default_translations = default_translations or NullTranslations()" not in text(bi.node):
         res.add("C26-NULL", bi.qual, "defaults", "filters must fall back to NullTranslations()", bi.file, bi.line)
     res.ob("null:whitespace")
-    tv = ltext(vb.node, local_names(vb.node))  # local names written `_`
+    from ..normalize import nfunc as _nfunc26
+
+    vb_n = _nfunc26(repo, vb, small_public=3)  # a small normalisation hook of the tag (`normalize_message`) inlined
+    tv = ltext(vb_n.node, local_names(vb_n.node))  # local names written `_`
     if "if self.trim_messages:" not in tv or "_ = self.re_whitespace.sub(' ', _.strip())" not in tv:
         res.add("C26-NULL", vb.qual, "whitespace", "the tag collapses whitespace runs with re_whitespace.sub(' ', msg.strip()) only when trim_messages is set", vb.file, vb.line)
     # ---- C26-UNDOUBLE: doubled percent signs are halved again on every path ------------------------
